@@ -198,7 +198,16 @@ def render(spec):
         lines.append(f"#define {name} " + " ".join(values))
     for name, values in spec["defines"].items():
         lines.append(f"#define {name} " + " ".join(values))
-    lines += ["[ defaults ]", f"1 {spec['comb']} {'yes' if spec['gen_pairs'] else 'no'} 1.0 1.0", "[ atomtypes ]"]
+    # the fudge fields (and, for gen-pairs no, the gen-pairs field) of [ defaults ] are optional
+    dform = spec.get("rng", 0) % 4
+    dline = f"1 {spec['comb']} {'yes' if spec['gen_pairs'] else 'no'} 1.0 1.0"
+    if dform == 1:
+        dline = f"1 {spec['comb']} {'yes' if spec['gen_pairs'] else 'no'}"
+    elif dform == 2:
+        dline = f"1 {spec['comb']} {'yes' if spec['gen_pairs'] else 'no'} 0.5"
+    elif dform == 3 and not spec["gen_pairs"]:
+        dline = f"1 {spec['comb']}"
+    lines += ["[ defaults ]", dline, "[ atomtypes ]"]
     for at in spec["atomtypes"]:
         if spec["opls"]:
             lines.append(f"{at['name']} {at['btype']} 6 {at['mass']} 0.0 A {at['nb1']} {at['nb2']}")
